@@ -36,7 +36,7 @@ package combinator
 //@ pure func resOK(ctx *parsley.Context, n parsley.Node, pos parsley.Pos) bool = n != nil ==> parsley.NodeOK(n) && parsley.ListOwn(n) && parsley.EndsWithin(n, pos, eof(ctx, pos))
 //@ pure func errOK(ctx *parsley.Context, e parsley.Error, pos parsley.Pos) bool = e != nil ==> pos <= e.Pos() && e.Pos() <= eof(ctx, pos) && e.Pos() <= parsley.GhostMaxFail
 //@ -- ghost state inside a running combinator: monotone marks moved on, floor and window are the combinator's own
-//@ pure func ghostIn(ctx *parsley.Context, lrc data.IntMap, pos parsley.Pos) bool = (old(parsley.GhostCurtailed) ==> parsley.GhostCurtailed) && parsley.GhostMaxFail >= old(parsley.GhostMaxFail) && parsley.GhostCalls > old(parsley.GhostCalls) && parsley.GhostFloorPos == pos && same(parsley.GhostFloorLrc, lrc) && parsley.GhostLo == pos && parsley.GhostHi == eof(ctx, pos) && (forall a int :: !freshid(a) ==> parsley.GhostSpare(a) == old(parsley.GhostSpare(a)))
+//@ pure func ghostIn(ctx *parsley.Context, lrc data.IntMap, pos parsley.Pos) bool = (old(parsley.GhostCurtailed) ==> parsley.GhostCurtailed) && parsley.GhostMaxFail >= old(parsley.GhostMaxFail) && parsley.GhostCalls > old(parsley.GhostCalls) && parsley.GhostFloorPos == pos && same(parsley.GhostFloorLrc, lrc) && parsley.GhostLo == pos && parsley.GhostHi == eof(ctx, pos) && parsley.GhostSeqMark == old(parsley.GhostSeqMark) && (forall a int :: !freshid(a) ==> parsley.GhostSpare(a) == old(parsley.GhostSpare(a)))
 
 //@ -- Choice: the first parser that returns a node wins (E5)
 //@ closure Choice$1(ctx *parsley.Context, lrc data.IntMap, pos parsley.Pos) (n parsley.Node, cp data.IntSet, err parsley.Error)
@@ -198,3 +198,183 @@ package combinator
 //@   ensures [copy;C07] len(nodes) >= 2 || (len(nodes) == 1 && !returnSingle) ==> typeis[*ast.NonTerminalNode](r) && fresh(r.(*ast.NonTerminalNode)) && fresh(ast.ChildrenOf(r.(*ast.NonTerminalNode))) && len(ast.ChildrenOf(r.(*ast.NonTerminalNode))) == len(nodes) && forall k int :: 0 <= k && k < len(nodes) ==> same(ast.ChildrenOf(r.(*ast.NonTerminalNode))[k], nodes[k])
 //@   ensures [span;C01] len(nodes) >= 1 ==> r.ReaderPos() == nodes[len(nodes)-1].ReaderPos()
 //@   ensures [empty;C01] len(nodes) == 0 ==> r.Pos() == pos && r.ReaderPos() == pos
+
+//@ -- ---------------------------------------------------------------------------------------------
+//@ -- constructors and setters of *Sequence: they establish / keep the object invariant [fns]
+//@ -- (function values stored in a Sequence are treated as pure: their captured state is frozen at
+//@ --  construction -- assumption "closure purity", see evidence)
+//@ props C01
+
+//@ func Seq(token string, parserLookUp func(int) parsley.Parser, lenCheck func(int) bool) (r *Sequence)
+//@   requires parserLookUp != nil && lenCheck != nil && shapeOf(parserLookUp, lenCheck)
+//@   ensures  fresh(r) && r.token == token && same(r.parserLookUp, parserLookUp) && same(r.lenCheck, lenCheck)
+//@   ensures  r.interpreter == nil && r.customErr == nil && r.resultHandler == nil
+//@   assigns  nothing
+//@ callee parserLookUp(i int) (p parsley.Parser)
+//@   requires i >= 0
+//@   assigns  nothing
+//@ callee lenCheck(n int) (ok bool)
+//@   requires n >= 0
+//@   assigns  nothing
+
+//@ func (s *Sequence) Name(name string) (r *Sequence)
+//@   requires s != nil
+//@   ensures  r == s && s.customErr != nil && parsley.IsNotFound(s.customErr)
+//@   assigns  s.customErr
+//@ func (s *Sequence) Token(token string) (r *Sequence)
+//@   requires s != nil
+//@   ensures  r == s && s.token == token
+//@   assigns  s.token
+//@ func (s *Sequence) HandleResult(resultHandler SeqResultHandler) (r *Sequence)
+//@   requires s != nil
+//@   ensures  r == s && s.resultHandler == resultHandler
+//@   assigns  s.resultHandler
+//@ func (s *Sequence) Bind(interp parsley.Interpreter) (r *Sequence)
+//@   requires s != nil
+//@   ensures  r == s && s.interpreter == interp
+//@   assigns  s.interpreter
+
+//@ pure func allParsers(ps []parsley.Parser) bool = forall k int :: 0 <= k && k < len(ps) ==> ps[k] != nil
+
+//@ closure SeqOf$1(i int) (r parsley.Parser)
+//@   captures (l int, parsers []parsley.Parser)
+//@   requires i >= 0 && l == len(parsers)
+//@   ensures  [def] r == ite(i < l, parsers[i], parsley.Parser(nil))
+//@   assigns  nothing
+//@ closure SeqOf$2(n int) (ok bool)
+//@   captures (l int)
+//@   ensures  [def] ok == (n == l)
+//@   assigns  nothing
+//@ func SeqOf(parsers ...parsley.Parser) (r *Sequence)
+//@   requires allParsers(parsers)
+//@   ensures  fresh(r) && r.token == "SEQ" && r.interpreter == nil && r.customErr == nil && r.resultHandler == nil
+//@   ensures  [E7-lookup] forall i int :: i >= 0 ==> lookupOf(r.parserLookUp, i) == ite(i < len(parsers), parsers[i], parsley.Parser(nil))
+//@   ensures  [E7-len] forall n int :: lenOf(r.lenCheck, n) == (n == len(parsers))
+//@   assigns  nothing
+
+//@ closure SeqTry$1(i int) (r parsley.Parser)
+//@   captures (l int, parsers []parsley.Parser)
+//@   requires i >= 0 && l == len(parsers)
+//@   ensures  [def] r == ite(i < l, parsers[i], parsley.Parser(nil))
+//@   assigns  nothing
+//@ closure SeqTry$2(n int) (ok bool)
+//@   captures (l int)
+//@   ensures  [def] ok == (n > 0 && n <= l)
+//@   assigns  nothing
+//@ -- with no parser at all the sequence would return neither a node nor an error: at least one is required
+//@ func SeqTry(parsers ...parsley.Parser) (r *Sequence)
+//@   requires allParsers(parsers) && len(parsers) >= 1
+//@   ensures  fresh(r) && r.token == "SEQ" && r.interpreter == nil && r.customErr == nil && r.resultHandler == nil
+//@   ensures  [E7-lookup] forall i int :: i >= 0 ==> lookupOf(r.parserLookUp, i) == ite(i < len(parsers), parsers[i], parsley.Parser(nil))
+//@   ensures  [E7-len] forall n int :: lenOf(r.lenCheck, n) == (n > 0 && n <= len(parsers))
+//@   assigns  nothing
+
+//@ closure SeqFirstOrAll$1(i int) (r parsley.Parser)
+//@   captures (l int, parsers []parsley.Parser)
+//@   requires i >= 0 && l == len(parsers)
+//@   ensures  [def] r == ite(i < l, parsers[i], parsley.Parser(nil))
+//@   assigns  nothing
+//@ closure SeqFirstOrAll$2(n int) (ok bool)
+//@   captures (l int)
+//@   ensures  [def] ok == (n == 1 || n == l)
+//@   assigns  nothing
+//@ func SeqFirstOrAll(parsers ...parsley.Parser) (r *Sequence)
+//@   requires allParsers(parsers)
+//@   ensures  fresh(r) && r.token == "SEQ" && r.interpreter == nil && r.customErr == nil && r.resultHandler == nil
+//@   ensures  [E7-lookup] forall i int :: i >= 0 ==> lookupOf(r.parserLookUp, i) == ite(i < len(parsers), parsers[i], parsley.Parser(nil))
+//@   ensures  [E7-len] forall n int :: lenOf(r.lenCheck, n) == (n == 1 || n == len(parsers))
+//@   assigns  nothing
+
+//@ closure newMany$1(i int) (r parsley.Parser)
+//@   captures (p parsley.Parser)
+//@   ensures  [def] r == p
+//@   assigns  nothing
+//@ closure newMany$2(n int) (ok bool)
+//@   captures (allowEmpty bool)
+//@   ensures  [def] ok == (allowEmpty || n > 0)
+//@   assigns  nothing
+//@ func newMany(p parsley.Parser, allowEmpty bool) (r *Sequence)
+//@   requires p != nil
+//@   ensures  fresh(r) && r.token == "MANY" && r.interpreter == nil && r.customErr == nil && r.resultHandler == nil
+//@   ensures  [E8-lookup] forall i int :: i >= 0 ==> lookupOf(r.parserLookUp, i) == p
+//@   ensures  [E8-len] forall n int :: lenOf(r.lenCheck, n) == (allowEmpty || n > 0)
+//@   assigns  nothing
+//@ func Many(p parsley.Parser) (r *Sequence)
+//@   requires p != nil
+//@   ensures  fresh(r) && r.token == "MANY" && r.interpreter == nil && r.customErr == nil && r.resultHandler == nil
+//@   ensures  [E8-lookup] forall i int :: i >= 0 ==> lookupOf(r.parserLookUp, i) == p
+//@   ensures  [E8-len] forall n int :: lenOf(r.lenCheck, n)
+//@   assigns  nothing
+//@ func Many1(p parsley.Parser) (r *Sequence)
+//@   requires p != nil
+//@   ensures  fresh(r) && r.token == "MANY" && r.interpreter == nil && r.customErr == nil && r.resultHandler == nil
+//@   ensures  [E8-lookup] forall i int :: i >= 0 ==> lookupOf(r.parserLookUp, i) == p
+//@   ensures  [E8-len] forall n int :: lenOf(r.lenCheck, n) == (n > 0)
+//@   assigns  nothing
+
+//@ closure newSepBy$1(i int) (r parsley.Parser)
+//@   captures (valueP parsley.Parser, sepP parsley.Parser)
+//@   ensures  [def] r == ite(i%2 == 0, valueP, sepP)
+//@   assigns  nothing
+//@ closure newSepBy$2(n int) (ok bool)
+//@   captures (allowEmpty bool)
+//@   ensures  [def] ok == ((n == 0 && allowEmpty) || n%2 == 1)
+//@   assigns  nothing
+//@ func newSepBy(valueP parsley.Parser, sepP parsley.Parser, allowEmpty bool) (r *Sequence)
+//@   requires valueP != nil && sepP != nil
+//@   ensures  fresh(r) && r.token == "SEP_BY" && r.interpreter == nil && r.customErr == nil && r.resultHandler == nil
+//@   ensures  [E9-lookup] forall i int :: i >= 0 ==> lookupOf(r.parserLookUp, i) == ite(i%2 == 0, valueP, sepP)
+//@   ensures  [E9-len] forall n int :: n >= 0 ==> lenOf(r.lenCheck, n) == ((n == 0 && allowEmpty) || n%2 == 1)
+//@   assigns  nothing
+//@ func SepBy(valueP parsley.Parser, sepP parsley.Parser) (r *Sequence)
+//@   requires valueP != nil && sepP != nil
+//@   ensures  fresh(r) && r.token == "SEP_BY" && r.interpreter == nil && r.customErr == nil && r.resultHandler == nil
+//@   ensures  [E9-lookup] forall i int :: i >= 0 ==> lookupOf(r.parserLookUp, i) == ite(i%2 == 0, valueP, sepP)
+//@   ensures  [E9-len] forall n int :: n >= 0 ==> lenOf(r.lenCheck, n) == (n == 0 || n%2 == 1)
+//@   assigns  nothing
+//@ func SepBy1(valueP parsley.Parser, sepP parsley.Parser) (r *Sequence)
+//@   requires valueP != nil && sepP != nil
+//@   ensures  fresh(r) && r.token == "SEP_BY" && r.interpreter == nil && r.customErr == nil && r.resultHandler == nil
+//@   ensures  [E9-lookup] forall i int :: i >= 0 ==> lookupOf(r.parserLookUp, i) == ite(i%2 == 0, valueP, sepP)
+//@   ensures  [E9-len] forall n int :: n >= 0 ==> lenOf(r.lenCheck, n) == (n%2 == 1)
+//@   assigns  nothing
+
+//@ func ReturnSingle() (r SeqResultHandlerFunc)
+//@   ensures  r != nil
+//@   assigns  nothing
+
+//@ -- ---------------------------------------------------------------------------------------------
+//@ -- constructors of the function parsers: the requirements the closures have on their captured
+//@ -- variables are established here (refine@... obligations at the conversion to parser.Func)
+//@ import "sync/atomic"
+//@ assume func atomic.AddInt32(addr *int32, delta int32) (r int32)
+//@   requires addr != nil
+//@   ensures  r == *addr
+//@   assigns  *addr
+
+//@ func Optional(p parsley.Parser) (r parser.Func)
+//@   requires p != nil
+//@   ensures  r != nil
+//@   assigns  nothing
+//@ func SuppressError(p parsley.Parser) (r parser.Func)
+//@   requires p != nil
+//@   ensures  r != nil
+//@   assigns  nothing
+//@ func Any(parsers ...parsley.Parser) (r parser.Func)
+//@   requires len(parsers) >= 1 && allParsers(parsers)
+//@   ensures  r != nil
+//@   assigns  nothing
+//@ func Choice(parsers ...parsley.Parser) (r parser.Func)
+//@   requires len(parsers) >= 1 && allParsers(parsers)
+//@   ensures  r != nil
+//@   assigns  nothing
+//@ -- the only package-level variable the library writes after initialisation: the atomic index counter
+//@ func Memoize(p parsley.Parser) (r parser.Func)
+//@   props C14,C03
+//@   requires p != nil
+//@   ensures  r != nil
+//@   assigns  nextParserIndex
+//@ func Single(p parsley.Parser) (r parser.Func)
+//@   requires p != nil
+//@   ensures  r != nil
+//@   assigns  nothing
